@@ -478,7 +478,7 @@ func (ps *PubSub) Numsub(channel string) int {
 	for _, sconn := range ps.conns {
 		sconn.mu.Lock()
 		for ient := range sconn.entries {
-			if ient.channel == channel {
+			if !ient.pattern && ient.channel == channel {
 				result++
 			}
 		}
